@@ -6,6 +6,10 @@ The real cpl.HopfieldNet(num_cells=N) is built with np.random.shuffle patched (r
 trained with P, and cpl.evolve(initial, timesteps=T, apply_rule=net.apply_rule, r=net.r) is run.
 Observables: net.r, net.W, the evolved array, and the integer 2E = -s'Ws of every returned row
 (computed here from net.W, independently of the Coq model).
+Kind 'retrain/...': the SAME net instance is first trained with another pattern set P1 and then with P;
+the property says train SETS the weights, so the model is still `train P` (P1 never reaches Coq).
+Kind 'large/...': N in {129, 131, 201}, where the weighted input of a cell exceeds 127 in magnitude, with
+int8 and int64 state arrays (an input that wraps in a narrow dtype flips the sign of the update).
 """
 import itertools
 from harness.driver import call_impl, cnat, czlist, cgrid, cres, clist
@@ -17,7 +21,8 @@ NONTRIVIAL_RULE = ('non-trivial = the evolution returned an array with at least 
                    'consecutive rows or a start that is a stored pattern / its negation (fixed point); '
                    'distinct = distinct case dicts')
 EXHAUSTIVE = {'quick': False, 'thorough': False}
-NOTES = ['N = 3: all 8 starts x all 6 update orders enumerated in both tiers; N in {5,7,9,11,15} sampled',
+NOTES = ['N = 3: all 8 starts x all 6 update orders enumerated in both tiers; N in {5,7,9,11,15} sampled; '
+         'N in {129,131,201} (weighted inputs beyond 127) with int8 and int64 states, 3-6 steps; W compared in full',
          'model compared = evolve_plain + async_rule1 (Model/Async.v, scripted shuffle) + hopfield_rule1; '
          'the direct schedule model hop_evolve must agree with it as well']
 ASSUMPTIONS = ['weights are int32 in the code; the model uses Z (no overflow: |W[i][j]| <= number of patterns)',
@@ -31,11 +36,63 @@ def _bip(rng, n):
     return [rng.choice([-1, 1]) for _ in range(n)]
 
 
-def _case(kind, N, P, perm, s, T, dtype, pform):
-    return {'kind': kind, 'N': N, 'P': P, 'perm': perm, 's': s, 'T': T, 'dtype': dtype, 'pform': pform}
+def _case(kind, N, P, perm, s, T, dtype, pform, P1=None):
+    return {'kind': kind, 'N': N, 'P': P, 'perm': perm, 's': s, 'T': T, 'dtype': dtype, 'pform': pform, 'P1': P1}
+
+
+LARGE = [129, 131, 201]
+
+
+def _large(rng, tier):
+    """N >= 129: |V| reaches N - 1 >= 128 next to a single stored pattern.  Few steps: the Coq side evaluates
+    N neighbourhoods of N cells per step (about 2.5 s per case at N = 129, 7 s at N = 201)."""
+    reps = 1 if tier == 'quick' else 3
+    for rep in range(reps):
+        for N in LARGE:
+            p = _bip(rng, N)
+            q = _bip(rng, N)
+            flips = rng.sample(range(N), rng.randint(2, 4))
+            near = list(p)
+            for k in flips:
+                near[k] = -near[k]
+            rest = [k for k in range(N) if k not in flips]
+            rng.shuffle(rest)
+            perm_recall = flips + rest           # the flipped cells are scheduled first: they are recalled
+            perm = list(range(N))
+            rng.shuffle(perm)
+            neg = [-x for x in p]
+            if N == 201:
+                plan = [('stored', [p], p, perm, 'int8'), ('negation', [p], neg, perm, 'int8'),
+                        ('recall', [p], near, perm_recall, 'int8'), ('stored', [p], p, perm, 'int64')]
+            else:
+                plan = [('stored', [p], p, perm, 'int8'), ('stored', [p], p, perm, 'int64'),
+                        ('negation', [p], neg, perm, 'int8'), ('negation', [p], neg, perm, 'int64'),
+                        ('recall', [p], near, perm_recall, 'int8'), ('recall', [p], near, perm_recall, 'int64'),
+                        ('two-patterns', [p, q], near, perm_recall, 'int8'),
+                        ('two-patterns', [p, q], list(q), perm, 'int64')]
+            for name, P, s, pm, dt in plan:
+                yield _case('large/%s' % name, N, P, pm, list(s), rng.randint(3, 6), dt, rng.choice(['list', 'array']))
 
 
 def generate(rng, tier):
+    small = list(_generate_small(rng, tier))
+    large = list(_large(rng, tier))
+    # spread the expensive cases evenly over the list (the driver shards it in order, 400 per coqc process)
+    if large:
+        step = max(1, len(small) // len(large))
+        out = []
+        li = 0
+        for i, c in enumerate(small):
+            if i % step == 0 and li < len(large):
+                out.append(large[li])
+                li += 1
+            out.append(c)
+        out.extend(large[li:])
+        return out
+    return small
+
+
+def _generate_small(rng, tier):
     mult = 1 if tier == 'quick' else 10
     # N = 3: every start, every order
     for rep in range(1 * mult):
@@ -81,6 +138,22 @@ def generate(rng, tier):
             for perm in (list(range(N)), list(range(N - 1, -1, -1))):
                 P = [_bip(rng, N) for _ in range(rng.randint(1, 4))]
                 yield _case('short/T<=2', N, P, perm, _bip(rng, N), T, rng.choice(['int32', 'int64']), 'list')
+    # the same net trained twice: train SETS the weights (the second call must not build on the first)
+    for i in range(90 * mult):
+        N = rng.choice(SIZES)
+        P1 = [_bip(rng, N) for _ in range(rng.randint(1, 3))]
+        if i % 3 == 0:
+            P, kind = [list(p) for p in P1], 'retrain/same-set-twice'
+        else:
+            P, kind = [_bip(rng, N) for _ in range(rng.randint(1, 3))], 'retrain/different-sets'
+        perm = list(range(N))
+        rng.shuffle(perm)
+        s0 = list(rng.choice(P))
+        if i % 2 == 0:
+            for k in rng.sample(range(N), rng.randint(1, max(1, N // 3))):
+                s0[k] = -s0[k]
+        yield _case(kind, N, P, perm, s0, rng.randint(1, 4 * N),
+                    rng.choice(['int32', 'int64']), rng.choice(['list', 'array']), P1=P1)
     # random
     for i in range(230 * mult):
         N = rng.choice(SIZES)
@@ -121,9 +194,14 @@ def run_impl(c):
     if obs['r'][0] != 'ok':
         return obs
     net = state['net']
-    P = [np.array(p) for p in c['P']] if c['pform'] == 'array' else [list(p) for p in c['P']]
+    def form(ps):
+        return [np.array(p) for p in ps] if c['pform'] == 'array' else [list(p) for p in ps]
+
+    P = form(c['P'])
 
     def train():
+        if c.get('P1') is not None:      # an earlier training of the same instance
+            net.train(form(c['P1']))
         net.train(P)
         return [[int(x) for x in row] for row in np.asarray(net.W).tolist()]
 
@@ -153,7 +231,7 @@ def nontrivial(c, obs):
     if obs['rows'][0] != 'ok':
         return False
     rows = obs['rows'][1]
-    return any(a != b for a, b in zip(rows, rows[1:])) or c['kind'].startswith('stored')
+    return any(a != b for a, b in zip(rows, rows[1:])) or 'stored' in c['kind'] or 'negation' in c['kind']
 
 
 def oracle(c, obs):
@@ -198,11 +276,16 @@ def shrink(c):
     if len(c['P']) > 1:
         yield dict(c, P=c['P'][:-1])
         yield dict(c, P=c['P'][1:])
+    if c.get('P1') is not None:
+        yield dict(c, P1=None)
+        if len(c['P1']) > 1:
+            yield dict(c, P1=c['P1'][:-1])
     if c['N'] > 3:
         N = c['N'] - 2
         perm = [x for x in c['perm'] if x < N]
-        yield dict(c, N=N, P=[p[:N] for p in c['P']], perm=perm, s=c['s'][:N])
+        P1 = None if c.get('P1') is None else [p[:N] for p in c['P1']]
+        yield dict(c, N=N, P=[p[:N] for p in c['P']], perm=perm, s=c['s'][:N], P1=P1)
     if c['pform'] == 'array':
         yield dict(c, pform='list')
-    if c['dtype'] != 'int64':
+    if c['dtype'] not in ('int64', 'int8'):
         yield dict(c, dtype='int64')
